@@ -151,7 +151,7 @@ class Ctx:
             w = v["where"]
             wtxt = "%s:%s %s" % (w["file"], w["line"], w["fn"]) if w else "-"
             lines.append("VIOLATION property=%s replay=%s" % (self.pid, rp))
-            lines.append("  rule=%s at %s :: %s" % (v["rule"], wtxt, v["message"]))
+            lines.append("  rule=%s key=[%s] at %s :: %s" % (v["rule"], v["key"], wtxt, v["message"]))
         wall = time.time() - self.t0
         cov = {
             "explanation": explanation,
